@@ -6,7 +6,7 @@ from typing import Optional
 
 from .. import sym
 from ..sym import Rat, C
-from ..values import Num, Const, Tup, Term, P, Val, arr_param, veq, Fn
+from ..values import Num, Const, Tup, Term, P, Val, arr_param, veq, Fn, walk_vals
 from ..model import AnalysisError
 from ..symeval import Evaluator
 from .common import S, run as runf, need_num, show, REPO_RESULT_KIND, SAU
@@ -87,6 +87,12 @@ def check_frame(ctx):
     ctx.floor('C03.4', len(stores), 1, 'stores in the interval function')
     for e in stores:
         idx = e.data['index']
+        if not (isinstance(idx, Term) and idx.head == 'slice') and any(isinstance(t_, Term) and t_.head in ('item', 'loopvar', 'loopstate', 'apply', 'attr')
+                                                                      for t_ in walk_vals(idx)):
+            # the window is taken from something prepared beforehand (a list of slice objects, a plan): which samples it names is not read here
+            ctx.unknown('C03.4', f"store at {e.loc()} is a per-window slice store", f"the index is not a slice the evaluator resolves: {show(idx, 100)}",
+                        e.loc(), fi.qualname, 'slice-store')
+            continue
         ctx.check(isinstance(idx, Term) and idx.head == 'slice' and len(e.loops) == 1, 'C03.4',
                   f"store at {e.loc()} is a per-window slice store", show(idx, 100), e.loc(), fi.qualname, 'slice-store')
     # the working copy: which library call produced the array that is written?
